@@ -55,6 +55,30 @@ use vcore::{
     },
 };
 
+// ------------------------------------------------------------------ process setup
+
+/// Performance only (no influence on any verdict): the in_memory wrapper's private hash
+/// map and the storage snapshots are allocated and freed at a high rate from 16 threads;
+/// with glibc's default thresholds that turns into mmap/munmap/trim system calls that
+/// serialise the threads. Keep freed memory in the arenas instead.
+pub fn tune_allocator() {
+    #[cfg(all(target_os = "linux", target_env = "gnu"))]
+    {
+        extern "C" {
+            fn mallopt(param: i32, value: i32) -> i32;
+        }
+        const M_TRIM_THRESHOLD: i32 = -1;
+        const M_TOP_PAD: i32 = -2;
+        const M_MMAP_THRESHOLD: i32 = -3;
+        // SAFETY: plain libc call with documented integer parameters, before any threads exist.
+        unsafe {
+            mallopt(M_MMAP_THRESHOLD, 32 * 1024 * 1024);
+            mallopt(M_TRIM_THRESHOLD, i32::MAX);
+            mallopt(M_TOP_PAD, 64 * 1024 * 1024);
+        }
+    }
+}
+
 // ------------------------------------------------------------------ real objects
 
 #[derive(Debug, Clone)]
@@ -111,7 +135,7 @@ pub fn kname(k: &H256) -> String {
     format!("{:02x}{:02x}..{:02x}{:02x}", k[0], k[1], k[30], k[31])
 }
 
-#[derive(Debug, Clone, Serialize, Deserialize, PartialEq, Eq, Hash)]
+#[derive(Debug, Clone, Serialize, Deserialize, PartialEq, Eq, Hash, PartialOrd, Ord)]
 pub enum Act {
     /// (index into `all_keys()`, index into `VALUES`)
     Ins(u8, u8),
